@@ -1176,6 +1176,7 @@ impl Hist {
                 let auth = if kind == "crew" && r.chance(1, 8) { 5 } else { r.pick(&[0u8, 0, 0, 0, 0, 1, 2, 3, 4]) };
                 format!("H xrew {} {} {} {} {} {} {} {}", kind, if r.chance(1, 2) { 1 } else { 2 }, idx, id, auth, value, fa, fb)
             }
+            49 if r.chance(1, 4) => format!("H xclose22 {} {}", id, r.pick(&[0u8, 0, 0, 0, 1, 2])),
             49 => {
                 // locking and what a locked position may still do
                 let follow = r.pick(&["none", "dec", "close", "reset", "repo", "inc", "cf", "xfer", "lock2", "xferm", "xfers", "xferl"]);
@@ -1462,6 +1463,22 @@ impl Family for Hist {
                 }
             };
             return line + " | " + &w.digest();
+        }
+        if t[1] == "xclose22" {
+            let o = std::panic::catch_unwind(std::panic::AssertUnwindSafe(|| w.x_close22(&t)));
+            return match o {
+                Ok(o) => {
+                    for v in o.viols {
+                        ctx.viol(v);
+                    }
+                    for tg in o.tags {
+                        ctx.tag(tg);
+                    }
+                    ctx.tag("xclose22");
+                    o.line + " | " + &w.digest()
+                }
+                Err(_) => "err HarnessPanic | ".to_string() + &w.digest(),
+            };
         }
         if t[1] == "xlock" {
             let o = std::panic::catch_unwind(std::panic::AssertUnwindSafe(|| w.x_lock(&t)));
